@@ -128,6 +128,9 @@ func (s *Solver) oneShotCheck(extra []*sym.Term, want []*sym.Term) (Result, Mode
 	if len(lines) == 0 {
 		return Unknown, nil
 	}
+	if os.Getenv("SYMX_DEBUG") != "" && lines[0] != "sat" && lines[0] != "unsat" {
+		fmt.Fprintf(os.Stderr, "[smt] oneshot answer: %v\n", lines)
+	}
 	for _, ln := range lines {
 		if strings.Contains(ln, "(error") {
 			// get-value after unsat prints an error: only fatal if the verdict line is missing
@@ -147,6 +150,9 @@ func (s *Solver) oneShotCheck(extra []*sym.Term, want []*sym.Term) (Result, Mode
 		}
 		m := parseValues(strings.Join(lines[1:], " "), want)
 		if m == nil {
+			if os.Getenv("SYMX_DEBUG") != "" {
+				fmt.Fprintf(os.Stderr, "[smt] cannot parse model: %s\n", strings.Join(lines[1:], " "))
+			}
 			return Unknown, nil
 		}
 		return Sat, m
